@@ -77,6 +77,15 @@ def run_persist(c, P):
                 w.scripts[idx] = Script(hconn.server_stream([0x81, 0x01, 0x61]), end='error')
             elif o == 'ready-close':
                 w.scripts[idx] = Script(hconn.server_stream([0x88, 0x02, 0x03, 0xE8]), end='eof')
+            elif o == 'proxy-refused':
+                w.fault_hook = _Always('connect')
+            elif o == 'proxy-407':
+                w.scripts[idx] = Script(lambda w_, s_: list(b'HTTP/1.1 407 Proxy Authentication Required\r\nProxy-Authenticate: Basic realm="x"\r\n\r\n'), end='eof')
+            elif o == 'proxy-reset':
+                # the proxy accepts the TCP connection and resets it during the CONNECT exchange (a raw socket error from recv)
+                w.scripts[idx] = Script(lambda w_, s_: list(b'HTTP/1.1 2'), end='error')
+            elif o == 'proxy-eof':
+                w.scripts[idx] = Script(lambda w_, s_: [], end='eof')
             elif o == 'protocol-error':
                 w.scripts[idx] = Script(hconn.server_stream([0x83, 0x00]), end='eof')
             gen = L.WebSocket.connect(self, *a, **k)
@@ -86,7 +95,7 @@ def run_persist(c, P):
                     produced.append(ev)
                     yield ev
             return rec()
-    ws = WS('ws://example.com/')
+    ws = WS('ws://example.com/', proxies={'http': 'http://proxy.local:3128'}) if P.get('proxy') else WS('ws://example.com/')
     poll, pr, pt = P.get('poll', 7), P.get('ping_rate', 0), P.get('ping_timeout', None)
     got = []
     app_closed = []
